@@ -568,7 +568,7 @@ Definition dsafe {A} (m : MS A) : Prop :=
 Lemma dsafe_quiet {A} (m : MS A) : quiet m → dsafe m.
 Proof.
   intros Hq s L r s' HI HC Hc Ht H. destruct (Hq _ _ _ H) as (->&?&?).
-  split_and!; try done. by apply keeps_extends.
+  do 6 (split; [done|]). split; [by apply keeps_extends|done].
 Qed.
 Lemma dsafe_bind {A B} (m : MS A) (f : A → MS B) :
   dsafe m → (∀ a, dsafe (f a)) → dsafe (bind m f).
@@ -734,3 +734,288 @@ Proof.
   unfold let_. destruct d as [[|]|[|]|[|]]; try apply dsafe_quiet, quiet_ret;
     [apply dsafe_cofactor|apply dsafe_compose|apply dsafe_rename].
 Qed.
+
+(** *** one call of the driver alphabet *)
+Definition keepsR (L : positive → nat) (s s' : st) : Prop :=
+  ∀ u, u ≠ 0%Z → heldn L (absn u) → valid s u →
+       valid s' u ∧ ∀ ρ, denv s' u ρ = denv s u ρ.
+
+(** the state predicate of the histories: no condition on [last_len] (dynamic
+    reordering may be enabled) nor on the forced trigger [trig] *)
+Definition GoodD (s : st) : Prop :=
+  Inv s ∧ rctx s = false ∧ tape s = [] ∧ ∃ L, Counts s L.
+
+(** the alphabet: every decorated operation, [apply], [let], the reference
+    counters, [collect_garbage], [configure] with any argument, the harness
+    setters of the threshold and of the forced trigger, the read-only
+    queries, and variable declaration.  Excluded: [find_or_add], [image],
+    [preimage], [copy_bdd] (not decorated: the signal escapes, C09), the raw
+    [swap]/[reorder] entry points, the tape and roots setters. *)
+Definition allowedD (o : op) : bool :=
+  match o with
+  | ONew levels => bool_decide (NoDup (levels.*1) ∧ NoDup (levels.*2))
+  | OAddVar _ _ | ODeclare _ | OVar _ | OIte _ _ _ | OApply _ _ _ _
+  | OIncref _ | ODecref _ | ORef _ | OGc _
+  | OCofactor _ _ _ | OQuantify _ _ _ _ | OCompose _ _ | ORename _ _
+  | OLet _ _ | OCube _ | OSupport _ | OIsEssential _ _
+  | OConfigure _ | OSetLastLen _ | OSetTrig _ => true
+  | _ => false
+  end.
+
+(** outcome of one call *)
+Definition dout (s : st) (r : res value) (s' : st) : Prop :=
+  GoodD s' ∧ r ≠ Err ENeedsReordering ∧ r ≠ Err EOracle ∧
+  ∀ L, Counts s L → keepsR L s s'.
+
+Lemma dsafe_out (m : MS value) s r s' : dsafe m → GoodD s → m s = (r, s') → dout s r s'.
+Proof.
+  intros Hm (HI&Hc&Ht&L&HC) H.
+  destruct (Hm s L r s' HI HC Hc Ht H) as (?&?&?&?&_&_&_&?&?).
+  split; [split_and!; try done; by exists L|]. split; [done|split; [done|]].
+  intros L' HC'. destruct (Hm s L' r s' HI HC' Hc Ht H) as (_&_&_&_&_&_&[_ Hk]&_&_).
+  exact Hk.
+Qed.
+
+Lemma dout_den s (r : res value) s' :
+  Inv s' → rctx s' = false → tape s' = [] → (∃ L, Counts s' L) →
+  r ≠ Err ENeedsReordering → r ≠ Err EOracle →
+  (∀ u, valid s u → valid s' u ∧ ∀ ρ, denv s' u ρ = denv s u ρ) →
+  dout s r s'.
+Proof.
+  intros ? ? ? ? ? ? Hd. split; [done|]. split; [done|split; [done|]].
+  intros L _ u _ _ Hu. by apply Hd.
+Qed.
+
+Lemma dout_extends s (r : res value) s' :
+  GoodD s → Inv s' → extends s s' → rctx s' = rctx s → tape s' = tape s →
+  (∃ L, Counts s' L) → r ≠ Err ENeedsReordering → r ≠ Err EOracle →
+  dout s r s'.
+Proof.
+  intros (HI&Hc&Ht&_) HI' He E1 E2 HL ? ?. apply dout_den; try done; [congruence..|].
+  intros u Hu. split; [by apply (valid_extends s s')|]. intros ρ. by apply denv_grow.
+Qed.
+
+Lemma bind_ret_inv {A C} (m : MS A) (h : A → C) s r s' :
+  (x <- m ;; ret (h x)) s = (r, s') →
+  ∃ r0, m s = (r0, s') ∧
+    match r0 with Ok a => r = Ok (h a) | Err e => r = Err e end.
+Proof.
+  unfold bind. destruct (m s) as [[x|e] s1]; intros [= <- <-].
+  - by exists (Ok x).
+  - by exists (Err e).
+Qed.
+
+Theorem run_opD_good w o s r s' :
+  GoodD s → allowedD o = true → is_new o = false → caller_ok s o →
+  run_op w o s = (r, s') → dout s r s'.
+Proof.
+  intros HG Ha Hnew Hgd H. pose proof HG as (HI&Hc&Ht&L&HL).
+  destruct o; try discriminate Ha; try discriminate Hnew; cbn [run_op] in H.
+  - (* OAddVar *)
+    apply bind_ret_inv in H as (r0&H&Hr).
+    destruct (add_var_total s v l r0 s' HI H) as (HI'&(_&E1&_&E2)&HC&Hden&Hr0).
+    { intros l0 -> Hv. by apply Hgd. }
+    apply dout_den; try done; [congruence|congruence|exists L; by apply HC|..].
+    + destruct r0; [by rewrite Hr|]. destruct Hr0 as [-> _]. by rewrite Hr.
+    + destruct r0; [by rewrite Hr|]. destruct Hr0 as [-> _]. by rewrite Hr.
+    + intros u Hu. destruct (Hden u Hu) as (?&_&?). done.
+  - (* ODeclare *)
+    apply bind_ret_inv in H as (r0&H&Hr).
+    destruct (declare_total s vs r0 s' HI H) as (->&HI'&(_&E1&_&E2)&HC&Hden).
+    apply dout_den; try done; [congruence|congruence|exists L; by apply HC|by rewrite Hr..|].
+    intros u Hu. destruct (Hden u Hu) as (?&_&?). done.
+  - apply (fun Hm => dsafe_out _ s r s' Hm HG H). dsafe. apply dsafe_var.
+  - apply (fun Hm => dsafe_out _ s r s' Hm HG H). dsafe. apply dsafe_ite.
+  - apply (fun Hm => dsafe_out _ s r s' Hm HG H). dsafe. apply dsafe_apply.
+  - (* OIncref *)
+    apply bind_ret_inv in H as (r0&H&Hr).
+    destruct (incref_total s u r0 s' HI H) as (HI'&He&(_&E1&_&E2)&Hv&Hn).
+    destruct (decide (valid s u)) as [Hu|Hu].
+    + destruct (Hv Hu) as [-> HC]. apply dout_extends; try done; [|by rewrite Hr..].
+      eexists. by apply HC.
+    + destruct (Hn Hu) as [-> ->]. apply dout_extends; try done; [by exists L|by rewrite Hr..].
+  - (* ODecref *)
+    apply bind_ret_inv in H as (r0&H&Hr).
+    destruct (decref_total s u r0 s' HI H) as (HI'&He&(_&E1&_&E2)&Hv&Hn).
+    destruct (decide (valid s u)) as [Hu|Hu].
+    + destruct (Hv Hu) as [-> HC]. apply dout_extends; try done; [|by rewrite Hr..].
+      eexists. apply HC; [done|]. cbn [caller_ok] in Hgd. specialize (Hgd Hu).
+      destruct HL as [H1 _]. rewrite (H1 (absn u)) in Hgd by apply elem_of_dom, Hu.
+      cbn in Hgd. lia.
+    + destruct (Hn Hu) as [-> ->]. apply dout_extends; try done; [by exists L|by rewrite Hr..].
+  - apply (fun Hm => dsafe_out _ s r s' Hm HG H). dsafe. apply dsafe_quiet, quiet_ref.
+  - (* OGc *)
+    apply bind_ret_inv in H as (r0&H&Hr).
+    destruct (collect_garbage_total roots s L r0 s' HI HL H)
+      as (HI'&HC'&Ev&El&(_&E1&_&E2)&Hsub&Hcase).
+    assert (Hr' : r ≠ Err ENeedsReordering ∧ r ≠ Err EOracle).
+    { destruct Hcase as [(->&_)|(->&_)]; by rewrite Hr. }
+    destruct Hr' as [Hr1 Hr2].
+    split; [split_and!; try done; [congruence|congruence|by exists L]|].
+    split; [done|split; [done|]].
+    intros L' HL' u Hu0 Hh Hu.
+    destruct (collect_garbage_total roots s L' r0 s' HI HL' H) as (_&_&_&_&_&_&Hcase').
+    destruct Hcase' as [(_&_&Hkeep)|(_&->&_)]; [|done].
+    assert (Hvu : valid s' u).
+    { split; [done|]. apply elem_of_dom, Hkeep. destruct Hh as [?|?]; [by left|right].
+      apply reach_root; [done|]. apply elem_of_dom, Hu. }
+    split; [done|]. intros ρ. unfold denv. rewrite El. by apply D_shrink.
+  - (* OConfigure *)
+    apply bind_ret_inv in H as (r0&H&Hr).
+    destruct (configure_total s b r0 s' HI H) as (HI'&He&HC&->&_).
+    assert (rctx s' = rctx s ∧ tape s' = tape s) as [E1 E2].
+    { unfold configure in H. cbn [bind get] in H.
+      destruct b as [[|]|]; cbn [bind modify ret] in H; by injection H as <-. }
+    apply dout_extends; try done; [exists L; by apply HC|by rewrite Hr..].
+  - (* OSetLastLen *)
+    cbn [bind modify ret] in H. injection H as <- <-.
+    apply dout_extends; try done.
+    + apply (Inv_same s); [by repeat split|done].
+    + exists L. by apply (Counts_same s).
+  - (* OSetTrig *)
+    cbn [bind modify ret] in H. injection H as <- <-.
+    apply dout_extends; try done.
+    + apply (Inv_same s); [by repeat split|done].
+    + exists L. by apply (Counts_same s).
+  - apply (fun Hm => dsafe_out _ s r s' Hm HG H). dsafe. apply dsafe_cofactor.
+  - apply (fun Hm => dsafe_out _ s r s' Hm HG H). dsafe. apply dsafe_quantify.
+  - apply (fun Hm => dsafe_out _ s r s' Hm HG H). dsafe. apply dsafe_compose.
+  - apply (fun Hm => dsafe_out _ s r s' Hm HG H). dsafe. apply dsafe_rename.
+  - apply (fun Hm => dsafe_out _ s r s' Hm HG H). dsafe. apply dsafe_let.
+  - apply (fun Hm => dsafe_out _ s r s' Hm HG H). dsafe. apply dsafe_cube.
+  - apply (fun Hm => dsafe_out _ s r s' Hm HG H). dsafe. apply dsafe_quiet, quiet_support.
+  - apply (fun Hm => dsafe_out _ s r s' Hm HG H). dsafe. apply dsafe_quiet, quiet_is_essential.
+Qed.
+
+(** *** one step of the driver, and histories *)
+Lemma step_run w m o : allowedD o = true →
+  step w m o = (<[m := (run_op w o (world_get w m)).2 <| tape := [] |>]> w,
+                (run_op w o (world_get w m)).1).
+Proof.
+  intros Ha. unfold step, world_get.
+  destruct o; try discriminate Ha; by destruct (run_op w _ _).
+Qed.
+
+Lemma world_get_insert (w : world) m x : world_get (<[m := x]> w) m = x.
+Proof. unfold world_get, world. by rewrite lookup_insert. Qed.
+
+Lemma GoodD_reset s : Inv s → rctx s = false → (∃ L, Counts s L) → GoodD (s <| tape := [] |>).
+Proof.
+  intros HI Hc [L HL]. split; [apply (Inv_same s); [by repeat split|done]|].
+  split; [done|split; [done|]]. exists L. by apply (Counts_same s).
+Qed.
+
+Theorem step_goodD w m o :
+  allowedD o = true →
+  (is_new o = false → GoodD (world_get w m) ∧ caller_ok (world_get w m) o) →
+  GoodD (world_get (step w m o).1 m) ∧
+  (step w m o).2 ≠ Err ENeedsReordering ∧ (step w m o).2 ≠ Err EOracle ∧
+  (is_new o = false →
+   ∀ L, Counts (world_get w m) L → keepsR L (world_get w m) (world_get (step w m o).1 m)).
+Proof.
+  intros Ha Hpre. rewrite (step_run w m o Ha). cbn [fst snd].
+  set (s := world_get w m) in *.
+  destruct (run_op w o s) as [r s'] eqn:E. cbn [fst snd].
+  rewrite !world_get_insert.
+  destruct (is_new o) eqn:Hnew.
+  - (* the constructor *)
+    destruct o; try discriminate Hnew. cbn [allowedD] in Ha.
+    apply bool_decide_eq_true in Ha as [Hn1 Hn2].
+    cbn [run_op bind modify] in E.
+    apply bind_ret_inv in E as (r0&E&Hr).
+    destruct (init_levels_total levels r0 s' Hn1 Hn2 E)
+      as [(_&->&->)|(_&->&HI'&_&Hc'&_&HC')].
+    + split; [|by rewrite Hr]. apply GoodD_reset; [apply Inv_init|done|].
+      eexists. apply Counts_init.
+    + split; [|by rewrite Hr]. apply GoodD_reset; [done|done|by eexists].
+  - destruct (Hpre eq_refl) as [HG Hgd].
+    destruct (run_opD_good w o s r s' HG Ha Hnew Hgd E) as ((HI'&Hc'&_&HL')&Hr1&Hr2&Hk).
+    split; [by apply GoodD_reset|]. split; [done|split; [done|]].
+    intros _ L HL u Hu0 Hh Hu. destruct (Hk L HL u Hu0 Hh Hu) as [Hv HD].
+    split; [done|]. intros ρ. rewrite <- HD. by apply denv_same.
+Qed.
+
+(** histories: every call allowed and guarded in the state it meets *)
+Fixpoint hist_okD (w : world) (m : nat) (ops : list op) : Prop :=
+  match ops with
+  | [] => True
+  | o :: ops =>
+      allowedD o = true ∧ is_new o = false ∧ caller_ok (world_get w m) o ∧
+      hist_okD (fst (step w m o)) m ops
+  end.
+(** the outcomes of the calls of a history *)
+Fixpoint outs (w : world) (m : nat) (ops : list op) : list (res value) :=
+  match ops with
+  | [] => []
+  | o :: ops => snd (step w m o) :: outs (fst (step w m o)) m ops
+  end.
+
+Theorem run_goodD ops : ∀ w m,
+  GoodD (world_get w m) → hist_okD w m ops →
+  GoodD (world_get (Total.run w m ops) m) ∧
+  Forall (fun r => r ≠ Err ENeedsReordering ∧ r ≠ Err EOracle) (outs w m ops).
+Proof.
+  induction ops as [|o ops IH]; intros w m HG Hh; [split; [exact HG|constructor]|].
+  destruct Hh as (Ha&Hnew&Hgd&Hh). cbn [Total.run fold_left outs].
+  destruct (step_goodD w m o Ha (fun _ => conj HG Hgd)) as (HG'&Hr1&Hr2&_).
+  destruct (IH _ m HG' Hh) as [HGf Hall]. split; [done|]. by constructor.
+Qed.
+
+(** from the empty world: the first call constructs the manager; dynamic
+    reordering may be switched on and off at will in between *)
+Theorem run_goodD_from_new levels ops m :
+  allowedD (ONew levels) = true →
+  hist_okD (fst (step world_empty m (ONew levels))) m ops →
+  GoodD (world_get (Total.run world_empty m (ONew levels :: ops)) m) ∧
+  Forall (fun r => r ≠ Err ENeedsReordering ∧ r ≠ Err EOracle)
+         (outs world_empty m (ONew levels :: ops)).
+Proof.
+  intros Ha Hh. cbn [Total.run fold_left outs].
+  destruct (step_goodD world_empty m (ONew levels) Ha) as (HG&Hr1&Hr2&_); [by intros [=]|].
+  destruct (run_goodD ops _ m HG Hh) as [HGf Hall]. split; [done|]. by constructor.
+Qed.
+
+(** *** the hypotheses are satisfiable: a history in which dynamic reordering
+    is switched on, the forced trigger fires inside [apply] and later inside
+    [quantify], references are released and collected, and reordering is
+    switched off again *)
+Definition histD_ops : list op :=
+  [OVar 0; OIncref 2; OVar 1; OIncref 3; OVar 2; OIncref 4; OVar 3; OIncref 5;
+   OApply "and" 2 (Some 4%Z) None; OIncref 6;
+   OApply "and" 3 (Some 5%Z) None; OIncref 7;
+   OApply "or" 6 (Some 7%Z) None; OIncref 10;
+   OConfigure (Some true);
+   OSetTrig (Some 1); OApply "and" 10 (Some 3%Z) None; OIncref 11;
+   ODecref 10; OGc None;
+   OSetTrig (Some 2); OQuantify 11 true [1] false;
+   OConfigure (Some false); OCube [(0, true); (3, false)]].
+
+Lemma histD_ok :
+  hist_okD (fst (step world_empty 0 (ONew [(0, 0); (1, 1); (2, 2); (3, 3)]))) 0 histD_ops.
+Proof.
+  cbn [histD_ops hist_okD allowedD is_new caller_ok].
+  repeat split. intros _. vm_compute. lia.
+Qed.
+
+Example histD_example :
+  let w := Total.run world_empty 0 (ONew [(0, 0); (1, 1); (2, 2); (3, 3)] :: histD_ops) in
+  GoodD (world_get w 0) ∧
+  Forall (fun r => r ≠ Err ENeedsReordering ∧ r ≠ Err EOracle)
+         (outs world_empty 0 (ONew [(0, 0); (1, 1); (2, 2); (3, 3)] :: histD_ops)).
+Proof. apply run_goodD_from_new; [by vm_compute|apply histD_ok]. Qed.
+
+(** what happened in that history (by running the model): both triggers were
+    consumed, the order changed, every call returned normally *)
+Example histD_trace :
+  let ops := ONew [(0, 0); (1, 1); (2, 2); (3, 3)] :: histD_ops in
+  let w17 := Total.run world_empty 0 (take 18 ops) in   (* after the first forced request *)
+  let w22 := Total.run world_empty 0 (take 23 ops) in   (* after the second *)
+  let w := Total.run world_empty 0 ops in
+  trig (world_get w17 0) = None ∧ last_len (world_get w17 0) = Some 18 ∧
+  vars (world_get w17 0) !! 2 = Some 0 ∧
+  trig (world_get w22 0) = None ∧
+  bool_decide (is_Some (last_len (world_get w22 0))) = true ∧
+  last_len (world_get w 0) = None ∧
+  forallb (fun r => match r with Ok _ => true | Err _ => false end)
+          (outs world_empty 0 ops) = true.
+Proof. vm_compute. by split_and!. Qed.
